@@ -676,6 +676,32 @@ func TestC13(t *testing.T) {
 			}
 		}
 	}, evalSign)
+	r.SetRule("leading-zeros", "exhaustive: ES256/ES384 × r with 0/1/≥2 leading zero bytes (nonces searched once) × s with 0/1/2/3/5/size-2 leading zero bytes × attached/detached × payload sizes {0, 1, 24, 300}: signatures constructed to be valid (private key solved from the chosen r, s and the Sig_structure digest; the independent reference must accept them) must verify, and with one bit of s flipped must not. Random signatures reach two leading zero bytes once in 65 536 cases.")
+	ev.Enum(r, "leading-zeros", true, func(yield func(lzDesc) bool) {
+		i := 0
+		for _, a := range []string{"ES256", "ES384"} {
+			for rz := 0; rz <= 2; rz++ {
+				for _, sz := range []int{0, 1, 2, 3, 5, 30} {
+					for _, det := range []bool{false, true} {
+						for _, size := range []int{0, 1, 24, 300} {
+							for _, flip := range []bool{false, true} {
+								if flip && size != 24 {
+									continue
+								}
+								i++
+								if !r.Mine(i) {
+									continue
+								}
+								if !yield(lzDesc{Alg: a, RZeros: rz, SZeros: sz, Size: size, Detached: det, Flip: flip}) {
+									return
+								}
+							}
+						}
+					}
+				}
+			}
+		}
+	}, evalLeadZero)
 	r.SetRule("mac0", "HMAC-256/384 × random key × payload × AAD × attached/detached × tamper {none, payload, AAD, key bit, protected header}; oracle: tag equals the reference HMAC over the reference MAC_structure, alg header present, recomputation after any alteration yields a different tag. All non-trivial; distinct by descriptor.")
 	ev.Rapid(r, "mac0", ev.N{Quick: 6000, Thorough: 200000}, genMac, evalMac)
 	ev.CheckWitness(r, "sign1", evalSign)
